@@ -960,6 +960,7 @@ func (e *SpecEnv) ufunApp(uf *UFunDecl, args []Expr) SV {
 	}
 	var sorts []*Sort
 	var ats []*Term
+	inst := ""
 	for i, pt := range uf.Params {
 		ty, err := e.w.evalType(upkg, pt)
 		if err != nil {
@@ -972,9 +973,17 @@ func (e *SpecEnv) ufunApp(uf *UFunDecl, args []Expr) SV {
 		if at.Sort != s {
 			if bb, ok := a.Ty.(*types.Basic); ok && bb.Kind() == types.UntypedNil {
 				at = e.nilOf(s)
+			} else if _, isTP := ty.(*types.TypeParam); isTP {
+				// a spec function over a type parameter, used at an instance: one function symbol per instance sort
+				s = at.Sort
+				sorts[len(sorts)-1] = s
+				inst += "__" + sanitize(s.Name)
 			} else {
 				sfail("ufun %s arg %d: sort %s, expected %s", uf.Name, i, at.Sort.Name, s.Name)
 			}
+		}
+		if _, isTP := ty.(*types.TypeParam); isTP && at.Sort == s && !strings.HasPrefix(s.Name, "TP_") && !strings.Contains(inst, "__"+sanitize(s.Name)) {
+			inst += "__" + sanitize(s.Name) // (the parameter's sort was already substituted by the call-site instantiation)
 		}
 		ats = append(ats, at)
 	}
@@ -983,7 +992,7 @@ func (e *SpecEnv) ufunApp(uf *UFunDecl, args []Expr) SV {
 		sfail("ufun %s result: %v", uf.Name, err)
 	}
 	rs := e.w.sortOf(e.h.d, rty)
-	name := "uf_" + sanitize(uf.Name)
+	name := "uf_" + sanitize(uf.Name) + inst
 	e.h.d.Fun(name, sorts, rs)
 	if rs == SSlc && len(ats) > 0 && e.h.emit != nil {
 		// a slice-valued spec function returns a well-formed slice value (0 <= len <= cap)
